@@ -107,6 +107,27 @@ def run(ctx):
             for x in expr_walk(e):
                 if x[0] == "call" and x[1] and x[1].endswith("to_be_bytes"):
                     conv_sinks.setdefault(expr_str(x, 80), []).append((b, c))
+    # staged form: the word is converted when it is stored (`words.push(stmt.emit()?.to_be_bytes())`) and the stored pairs are written
+    # unchanged by a loop over the whole collection - each conversion still feeds exactly one write, one iteration later
+    staged = {}
+    for b, t, c in main.calls():
+        if b in region and c and c.endswith("Vec::<T, A>::push") and "[u8; 2]" in " ".join(t.get("arg_tys") or []):
+            for x in expr_walk(main.expr(t["args"][1], 12)):
+                if x[0] == "call" and x[1] and x[1].endswith("to_be_bytes"):
+                    staged.setdefault(expr_str(x, 80), []).append(b)
+    drains = []
+    if staged:
+        for hh, (body, l) in lps.items():
+            th = main.term(hh)
+            if th["k"] == "call" and (callee_of(th) or "").endswith("::next") and "[u8; 2]" in (th.get("arg_tys") or [""])[0] \
+                    and re.search(r"(vec::into_iter::IntoIter|slice::iter::Iter)<", (th.get("arg_tys") or [""])[0]) \
+                    and not re.search(r"adapters::(?!(rev|enumerate|peekable|cloned|copied|fuse|inspect)::)", (th.get("arg_tys") or [""])[0]):
+                inside = [(b, t, c) for b, t, c in sinks if b in body and not ("Vec" in c or "Extend" in c)]
+                if len(inside) == 1 and not any(x[0] == "call" and str(x[1]).endswith("to_be_bytes") for x in expr_walk(main.expr(inside[0][1]["args"][1], 10))):
+                    drains.append((hh, inside[0]))
+        if len(drains) == 1:
+            for k, v in staged.items():
+                conv_sinks.setdefault(k, []).append((drains[0][1][0], drains[0][1][2] + " (one iteration of the drain loop per stored pair)"))
     conv_blocks = [b for b, t, c in conv_w]
     in_loop = [b for b in conv_blocks if any(b in body for h, (body, l) in lps.items())]
     once = [b for b in conv_blocks if b not in in_loop]
@@ -121,6 +142,8 @@ def run(ctx):
     ok = len(in_loop) == 1 and len(once) in (1, 2) and bool(h)
     if ok:
         hb = min(h, key=lambda x: len(lps[x][0]))
+        if staged and len(drains) == 1 and any(in_loop[0] in main.reachable(pb) or pb == in_loop[0] or in_loop[0] in lps[hb][0] and pb in lps[hb][0] for v in staged.values() for pb in v):
+            hb = drains[0][0]          # the words reach the file in the drain loop; the origin must have been written before that one
         # the origin conversion(s): exactly one on every path to the word loop
         if len(once) == 2:
             a, b2 = once
